@@ -93,6 +93,49 @@ func (p *c20PausingReader) Read(b []byte) (int, error) {
 	return n, nil
 }
 
+// c20LockedMem is a cache persistor double whose Store/Get/Remove are atomic (one mutex, the value
+// is published only when completely read). The goroutine soak uses it so that what it finds is the
+// middleware's own doing and not the non-atomic Store of the shipped persistors (C19).
+type c20LockedMem struct {
+	mu sync.Mutex
+	m  map[string][]byte
+}
+
+func (p *c20LockedMem) Store(key string, r io.Reader) (int64, error) {
+	val, err := io.ReadAll(r)
+	if err != nil {
+		return 0, err
+	}
+	p.mu.Lock()
+	p.m[key] = val
+	p.mu.Unlock()
+	return int64(len(val)), nil
+}
+
+func (p *c20LockedMem) Get(key string) (io.ReadCloser, error) {
+	p.mu.Lock()
+	val, ok := p.m[key]
+	p.mu.Unlock()
+	if !ok {
+		return nil, persistor.ErrCacheMiss
+	}
+	return io.NopCloser(bytes.NewReader(val)), nil
+}
+
+func (p *c20LockedMem) Remove(key string) error {
+	p.mu.Lock()
+	delete(p.m, key)
+	p.mu.Unlock()
+	return nil
+}
+
+func (p *c20LockedMem) RemoveAll() error {
+	p.mu.Lock()
+	p.m = map[string][]byte{}
+	p.mu.Unlock()
+	return nil
+}
+
 // ---------------------------------------------------------------- configurations
 
 type c20Cfg struct {
@@ -134,6 +177,8 @@ func c20NewEnv(dir string, cfg c20Cfg) *c20Env {
 	cdir := filepath.Join(dir, "cache")
 	if cfg.persistor == "fs" {
 		p = verifx.Must(fspersistor.New(cdir))
+	} else if cfg.persistor == "lockedmem" {
+		p = &c20LockedMem{m: map[string][]byte{}}
 	} else {
 		p = verifx.Must(inmemory.New())
 	}
@@ -171,10 +216,10 @@ func (c *c20Seq) objTok(o *storage.Object) string {
 	if _, ok := c.lm[ns]; !ok {
 		c.lm[ns] = len(c.lm)
 	}
-	return fmt.Sprintf("key=%s|ct=%s|lm=%d|vid=%s|dm=%d|crc32=%s|crc32c=%s|crc64=%s|sha1=%s|sha256=%s|cst=%s|cls=%s|tags=%s|md=%s",
+	ck := md5.Sum([]byte(strings.Join([]string{optS(o.ChecksumCRC32), optS(o.ChecksumCRC32C), optS(o.ChecksumCRC64NVME), optS(o.ChecksumSHA1), optS(o.ChecksumSHA256), optS(o.ChecksumType)}, "|")))
+	return fmt.Sprintf("key=%s|ct=%s|lm=%d|vid=%s|dm=%d|ck=%s|cls=%s|tags=%s|md=%s",
 		verifx.HexS(o.Key.String()), optS(o.ContentType), c.lm[ns], c.vidOut(o.VersionID), b2i(o.IsDeleteMarker),
-		optS(o.ChecksumCRC32), optS(o.ChecksumCRC32C), optS(o.ChecksumCRC64NVME), optS(o.ChecksumSHA1), optS(o.ChecksumSHA256),
-		optS(o.ChecksumType), optS(o.StorageClass), pairsS(o.Tags), pairsS(metaPairs(o.Metadata)))
+		hex.EncodeToString(ck[:6]), optS(o.StorageClass), pairsS(o.Tags), pairsS(metaPairs(o.Metadata)))
 }
 
 // res: ok:<etag>:<size>:<bodytok>:<objtok> | err:<Kind>
@@ -312,7 +357,10 @@ func (g *c20Gen) note(line string) {
 
 func (g *c20Gen) readLine() string {
 	r := g.r
-	b, k := g.g.bk(), g.g.key()
+	b, k := "b0", g.g.key()
+	if r.Chance(1, 12) {
+		b = "b1"
+	}
 	if len(g.recent) > 0 && r.Chance(7, 10) {
 		p := verifx.Pick(r, g.recent)
 		b, k = p[0], p[1]
@@ -340,6 +388,10 @@ func (g *c20Gen) step() {
 	switch {
 	case r.Chance(45, 100):
 		g.c.read(g.readLine())
+	case r.Chance(1, 6):
+		line := fmt.Sprintf("op put b0 %s %s %s inm=0 im=~", g.g.key(), verifx.Hex(g.g.body()), genOpts(r).line())
+		g.note(line)
+		g.c.mutate(line)
 	case r.Chance(1, 14):
 		ks := []string{g.g.key()}
 		if r.Bool() {
@@ -431,6 +483,9 @@ func runC20Seq(f *verifx.Flags, out *verifx.Out, k int, seed uint64, directed []
 			g.step()
 		}
 		for _, b := range []string{"b0", "b1"} {
+			if !sc.made[b] {
+				continue
+			}
 			for _, key := range s3hKeys {
 				c.read(fmt.Sprintf("rd head %s %s vid=~ im=~ inm=~", b, key))
 				c.read(fmt.Sprintf("rd get %s %s vid=~ im=~ inm=~", b, key))
@@ -697,9 +752,13 @@ func runC20(args []string) {
 		if f.Wants(k) {
 			seed := verifx.CaseSeed(f.Seed, k)
 			if i < nconc {
-				// filesystem persistor only: the in-memory persistor's unsynchronised map (C19) would
-				// abort the whole process with "concurrent map writes" instead of returning a result
-				runC20Conc(f, out, k, seed, c20Cfg{"fs", "fs", verifx.Pick(verifx.NewRng(seed), []string{"none", "lfukeys"}), 3, 1 << 20})
+				// never the shipped in-memory persistor: its unsynchronised map (C19) would abort the whole
+				// process with "concurrent map writes" instead of returning a result
+				pers := "lockedmem"
+				if i%2 == 1 {
+					pers = "fs"
+				}
+				runC20Conc(f, out, k, seed, c20Cfg{"fs", pers, verifx.Pick(verifx.NewRng(seed), []string{"none", "lfukeys"}), 3, 1 << 20})
 			} else {
 				runC20Seq(f, out, k, seed, nil, c20Cfgs[k%len(c20Cfgs)], modes[(k/len(c20Cfgs))%len(modes)], 45)
 			}
